@@ -235,8 +235,9 @@ def run(ctx: Ctx) -> int:
     # recorded) - not anything path-like: a pathlib.Path given as a default or through parse_object is still checked
     ipt = ctx.func("typing:_is_path_type")
     insts = [c for c in calls_in(ipt) if call_leaf(c) == "isinstance" and len(c.args) == 2]
-    ok = len(insts) == 1 and isinstance(insts[0].args[1], ast.Name) and insts[0].args[1].id == "Path" and ctx.repo.modules["typing"].imports.get("Path", ("", ""))[0].endswith("_util")
-    ctx.oblige("C19.b", ok, insts[0] if insts else ipt, "a value counts as already of a path type only if it is an instance of jsonargparse's Path" if ok else f"the 'already of this type' test of the path types is `{ast.unparse(insts[0]) if insts else '?'}`, wider than jsonargparse's Path: a pathlib.Path (default, parse_object) is accepted without any mode check and without relative/absolute bookkeeping", fn=ipt, construct="path type check")
+    cls_param = ipt.args.args[1].arg if len(ipt.args.args) > 1 else None
+    ok = len(insts) == 1 and isinstance(insts[0].args[1], ast.Name) and ((insts[0].args[1].id == "Path" and ctx.repo.modules["typing"].imports.get("Path", ("", ""))[0].endswith("_util")) or insts[0].args[1].id == cls_param)
+    ctx.oblige("C19.b", ok, insts[0] if insts else ipt, "a value counts as already of a path type only if it is an instance of jsonargparse's Path (or of the registered path class itself)" if ok else f"the 'already of this type' test of the path types is `{ast.unparse(insts[0]) if insts else '?'}`, wider than jsonargparse's Path: a pathlib.Path (default, parse_object) is accepted without any mode check and without relative/absolute bookkeeping", fn=ipt, construct="path type check")
     # `file://...` is a local path for EVERY mode: the normalisation is not conditioned on the mode (a mode with `s`
     # would otherwise classify a local file as an fsspec path - no overwrite check, no local mode checks)
     from .util import guard_atoms
